@@ -8,6 +8,36 @@ use sim_core::prng::{Hasher64, Rng};
 
 pub struct C09;
 
+fn exec_cli_threads(j: &J) -> Result<RunOut, String> {
+    use sim_core::cliproc::{self, CliScenario};
+    let mut sc = CliScenario::from_json(j)?;
+    let mut out = RunOut::default();
+    sc.threads = 1;
+    let reference = cliproc::run_cli(&sc)?;
+    out.hash = reference.hash();
+    out.nontrivial = true;
+    out.sim_steps = 1;
+    out.sample = Some(reference.sample());
+    out.count("probe.cli_real_rayon_executions", 1);
+    for (k, t) in [1u64, 2, 4, 16].iter().enumerate() {
+        sc.threads = *t;
+        let r = cliproc::run_cli(&sc)?;
+        out.count("probe.cli_real_rayon_executions", 1);
+        if r.code != reference.code || r.json != reference.json || r.svg != reference.svg {
+            let class = if *t == 1 { "cli-repeat-differs" } else { "cli-output-depends-on-thread-count" };
+            out.violate(Violation::new(
+                class,
+                k as u64,
+                format!(
+                    "the shipped binary with RAYON_NUM_THREADS={} wrote different output than with 1 thread for the same arguments: final score {:?} vs {:?} (exit {:?} vs {:?}); argv {:?}",
+                    t, r.final_score_text, reference.final_score_text, r.code, reference.code, r.argv
+                ),
+            ));
+        }
+    }
+    Ok(out)
+}
+
 fn sched_of(j: &J) -> Sched {
     let seed = j.get("sched_seed").and_then(|x| x.as_u64()).unwrap_or(0);
     match j.get("scheduler").and_then(|x| x.as_str()) {
@@ -33,7 +63,7 @@ impl Check for C09 {
         "C09"
     }
     fn rule(&self) -> String {
-        "scenario i: group x shape x potential x optimiser settings x R = 1..4 (quick) / 1..6 (thorough) replicas, W = 1..16 simulated workers, pre-emption gap in {never, 1000, 100, 10} SharedValue accesses, scheduler uniform-random or PCT depth 1..3, K seeded schedules; all from splitmix(VERIF_SEED,'C09',i). Per scenario: one reference execution (1 worker, index order, no pre-emption), K scheduled executions (each rebuilds the input from the arguments = restart), R single-index deliveries and 2 subset deliveries; output bytes are compared. Non-trivial: at least one execution had >= 2 active workers or an injected pre-emption. Distinct: hash of the scenario's outputs together with the schedule statistics (accesses, pre-emptions, steals, tree depth).".into()
+        "scenario i: group x shape x potential x optimiser settings x R = 1..4 (quick) / 1..6 (thorough) replicas, W = 1..16 simulated workers, pre-emption gap in {never, 1000, 100, 10} SharedValue accesses, scheduler uniform-random or PCT depth 1..3, K seeded schedules; every 8th scenario instead runs the shipped binary (real rayon) with RAYON_NUM_THREADS = 1, 1, 2, 4, 16 and compares bytes; all from splitmix(VERIF_SEED,'C09',i). Per scenario: one reference execution (1 worker, index order, no pre-emption), K scheduled executions (each rebuilds the input from the arguments = restart), R single-index deliveries and 2 subset deliveries; output bytes are compared. Non-trivial: at least one execution had >= 2 active workers or an injected pre-emption. Distinct: hash of the scenario's outputs together with the schedule statistics (accesses, pre-emptions, steals, tree depth).".into()
     }
     fn runs(&self, tier: Tier) -> u64 {
         match tier {
@@ -55,7 +85,16 @@ impl Check for C09 {
         // scenario the way it looks to a replay of its file: a fresh process
         true
     }
-    fn generate(&self, rng: &mut Rng, tier: Tier, _i: u64) -> J {
+    fn generate(&self, rng: &mut Rng, tier: Tier, i: u64) -> J {
+        if i % 8 == 7 {
+            // process level: the shipped binary on real rayon with 1, 2, 4 and 16 threads.  Real
+            // scheduling is not controlled, so this part can only ever *add* a violation that shows
+            // up as different bytes; the deciding exploration is the simulated part.
+            let mut sc = sim_core::cliproc::gen_valid(rng);
+            sc.replications = Some(*rng.pick(&[2u64, 3, 5, 8]));
+            sc.steps = Some(*rng.pick(&[20u64, 100, 200]));
+            return sc.to_json().set("mode", J::str("cli-threads"));
+        }
         let max_r = match tier {
             Tier::Quick => 4,
             Tier::Thorough => 6,
@@ -75,6 +114,9 @@ impl Check for C09 {
             .set("subset_seed", J::uint(rng.below(1 << 40)))
     }
     fn execute(&self, j: &J) -> Result<RunOut, String> {
+        if j.get("mode").and_then(|m| m.as_str()) == Some("cli-threads") {
+            return exec_cli_threads(j);
+        }
         let sc = RepScenario::from_json(j)?;
         let workers = j.get("workers").and_then(|x| x.as_u64()).unwrap_or(2) as usize;
         let yield_gap = j.get("yield_gap").and_then(|x| x.as_u64()).unwrap_or(0);
@@ -241,6 +283,9 @@ impl Check for C09 {
     }
     fn shrink(&self, j: &J) -> Vec<J> {
         let mut out = vec![];
+        if j.get("mode").and_then(|m| m.as_str()) == Some("cli-threads") {
+            return out;
+        }
         let sc = match RepScenario::from_json(j) {
             Ok(s) => s,
             Err(_) => return out,
@@ -287,6 +332,7 @@ impl Check for C09 {
             "rayon is replaced by sim-rayon: results say nothing about rayon's own implementation, only about what the pipeline does under any splitting, stealing, completion order and pre-emption the rayon API allows".into(),
             "schedules are sampled (shuttle RandomScheduler / PCT), not enumerated; pre-emption points are SharedValue accesses, worker/deque operations and item boundaries".into(),
             "the reference is the same real analyse_state run with one worker in index order - not a re-implementation of the stage recipe".into(),
+            "every 8th scenario runs the shipped binary on real rayon with 1, 1, 2, 4 and 16 threads and compares bytes; its scheduling is not controlled, so a clean result there decides nothing (sanity cross-check of the stub)".into(),
             "the access monitor treats replica items as mutually concurrent whatever the actual schedule was: a parameter cell touched by two items with at least one write is reported".into(),
         ]
     }
